@@ -8,7 +8,7 @@
       table of the sites (`Generated.C11.raiseSites`: function, class, the mode test that encloses
       the statement, reachability from raw_decode / raw_encode in the name-based call graph) is
       regenerated from the AST of the source on every run (harness/lib_c11sites.py).
-  (c) `policy` below is the HAND-MAINTAINED classification of the sites that are not enclosed by
+  (c) `policyBase` (+ `guardEntries` for the repaired descent) below is the HAND-MAINTAINED classification of the sites that are not enclosed by
       `if validation == 'strict'`: one entry per (function, class) with the number of such `raise`
       statements in that function.  A `raise` added to the code changes a count or adds a key and
       breaks `Props.C11.raise_sites_classified` / `policy_counts_match` until it is classified.
@@ -111,7 +111,7 @@ def Kind.resourceOrStop : Kind → Bool
 
 /-- hand-maintained classification: (key, number of not strict-guarded `raise` statements with
     that key, kind) -/
-def policy : List (String × Nat × Kind) := [
+def policyBase : List (String × Nat × Kind) := [
   ("assertions:XsdAssert.__call__:XMLSchemaNotBuiltError", 1, .notBuilt),
   ("attributes:XsdAttributeGroup.__setitem__:XMLSchemaValueError", 1, .buildTime),
   ("builders:StagedMap.__getitem__:XMLSchemaKeyError", 1, .caught),
@@ -270,6 +270,22 @@ def policy : List (String × Nat × Kind) := [
   ("xsdbase:XsdValidator.validation_attempted:NotImplementedError", 1, .abstractStub)
 ]
 
+/-- the two `raise XMLResourceExceeded(…)` statements that the repair of C11-F2 adds to
+    XsdElement.raw_decode / raw_encode (`except RecursionError:` around the recursive call): present in
+    the source exactly when `Generated.C11.recursionGuard` is true -/
+def guardEntries : List (String × Nat × Kind) := [
+  ("elements:XsdElement.raw_decode:XMLResourceExceeded", 1, .limit),
+  ("elements:XsdElement.raw_encode:XMLResourceExceeded", 1, .limit)]
+
+/-- insertion that keeps the table sorted by key -/
+def insertEntry (e : String × Nat × Kind) : List (String × Nat × Kind) → List (String × Nat × Kind)
+  | [] => [e]
+  | p :: ps => if e.1 < p.1 then e :: p :: ps else p :: insertEntry e ps
+
+/-- the hand table for the variant of the source under check -/
+def policyOf (guarded : Bool) : List (String × Nat × Kind) :=
+  if guarded then guardEntries.foldr insertEntry policyBase else policyBase
+
 /-- Walks the site table (sorted by key, then index — as the generator emits it) along the hand
     table (sorted by key): a strict-guarded site gets `strictGuard`; any other site must carry the
     key of the current entry, whose count is decremented; an entry is dropped when its count is
@@ -291,13 +307,13 @@ def classifyAll : List RaiseSite → List (String × Nat × Kind) → Option (Li
         else none
 
 /-- look-up used by the driver (native code): the kind of a site by key and guard -/
-def policyKind (key : String) : Option Kind :=
-  match policy.find? (·.1 == key) with
+def policyKind (pol : List (String × Nat × Kind)) (key : String) : Option Kind :=
+  match pol.find? (·.1 == key) with
   | some p => some p.2.2
   | none => none
 
-def kindOf (s : RaiseSite) : Option Kind :=
-  if s.guard == .strict then some .strictGuard else policyKind s.key
+def kindOf (pol : List (String × Nat × Kind)) (s : RaiseSite) : Option Kind :=
+  if s.guard == .strict then some .strictGuard else policyKind pol s.key
 
 /-! ### a descent as the sequence of sites it reaches -/
 
